@@ -245,4 +245,19 @@ theorem from_value_lexical_binary (e : Env) (bs : Bytes) (h : AllBytes bs) (fmt 
   · simp [bytesSerialize]
   · rw [hb]; exact .base64Binary _ bs (b64Encode_valid bs h)
 
+/-! ## the hypotheses of the theorems above are satisfiable -/
+
+-- xmltime_rt / xmldatetime_rt
+example : Props.C06.validTime ⟨23, 59, 59, 500000000, some 840⟩ := by
+  refine ⟨by decide, ?_⟩
+  intro x hx; cases hx; omega
+
+example : Props.C06.validDateTime ⟨-44, 3, 15, 0, 0, 0, 0, none⟩ := by
+  refine ⟨by decide, by decide, ?_⟩
+  intro x hx; cases hx
+
+-- duration_rt
+example : (XmlDuration.ofString asciiCEnv.toEnv [' ', 'P', '1', 'D', 'T', '2', 'H']).map (·.1) =
+    some ['P', '1', 'D', 'T', '2', 'H'] := by decide
+
 end Props.C05
